@@ -1829,7 +1829,7 @@ package stackage
 
 // ---- C18: encapsulation pairs: a string already in use is refused, otherwise the entry is appended
 
-//@ func strInSlice
+//@ func strInSlice @spec
 //@ tags C18
 //@ safety C18
 //@ requires okslice(slice, alloc)
@@ -1837,7 +1837,7 @@ package stackage
 //@ modifies nothing
 //@ loop 1 invariant 0 <= i && i <= len(slice) && !inEntry(slice, str, i)
 
-//@ func (*nodeConfig).setStringSliceEncapOne
+//@ func (*nodeConfig).setStringSliceEncapOne @spec
 //@ tags C18
 //@ safety C18
 //@ requires r != nil && okref(r, alloc) && okslice(x, alloc) && len(x) >= 1 && okslice(F_nodeConfig_enc[r], alloc)
@@ -1850,7 +1850,7 @@ package stackage
 //@ modifies F_nodeConfig_enc[r], Mem_Slice[arr(F_nodeConfig_enc[r])], Mem_Slice[fresh]
 //@ loop 1 invariant 0 <= u && u <= len(enc0) && F_nodeConfig_enc[r] == enc0 && !found && !inUse(enc0, s0, u)
 
-//@ func (*nodeConfig).setStringSliceEncapTwo
+//@ func (*nodeConfig).setStringSliceEncapTwo @spec
 //@ tags C18
 //@ safety C18
 //@ requires r != nil && okref(r, alloc) && okslice(x, alloc) && len(x) >= 2 && okslice(F_nodeConfig_enc[r], alloc)
